@@ -163,6 +163,31 @@ def run_case(case):
                     bad(method, "integer_argument_vs_float", "constructed", {"x": xi, "int": gi, "float": gf}, kind)
         except Exception as e:
             bad(method, "exception", "constructed", {"type": type(e).__name__, "msg": str(e)[:200], "integer_argument": True}, "int")
+    # ---- integer-typed PARAMETER values (python int, numpy integer) at construction and as explicit overrides
+    if case.get("int_params"):
+        pts = [x for x in xs if x > (lower if np.isfinite(lower) else -np.inf)][:8]
+        ref_i = {m: np.asarray(getattr(const, m)(np.array(pts if m != "icdf" else [0.1, 0.5, 0.9])), dtype=float) for m in ("cdf", "pdf", "icdf")}
+        ith = {k: int(v) for k, v in th.items()}
+        variants = [("constructed_pyint", cls(**ith), (), {}),
+                    ("explicit_kw_pyint", cls(), (), ith),
+                    ("explicit_pos_npint", cls(), tuple(np.int64(ith[n]) for n in names), {}),
+                    ("explicit_kw_int_arrays", cls(), (), {k: np.array([v, v, v]) for k, v in ith.items()})]
+        for mode, inst, args, kwargs in variants:
+            for method in ("cdf", "pdf", "icdf"):
+                arg = np.array(pts if method != "icdf" else [0.1, 0.5, 0.9])
+                if mode == "explicit_kw_int_arrays":
+                    arg = arg[:3]
+                count["calls"] = count.get("calls", 0) + 1
+                try:
+                    got = np.asarray(getattr(inst, method)(arg, *args, **kwargs), dtype=float)
+                except Exception as e:
+                    bad(method, "exception", mode, {"type": type(e).__name__, "msg": str(e)[:200]}, "int_params")
+                    continue
+                exp = ref_i[method][:len(got)]
+                with np.errstate(all="ignore"):
+                    ok = (np.abs(got - exp) <= 2e-15 * np.abs(exp)) | (got == exp) | (np.isnan(got) & np.isnan(exp))
+                if got.shape != exp.shape or not ok.all():
+                    bad(method, "integer_parameters_vs_float", mode, {"theta": ith, "got": got[:3], "float_parameters": exp[:3]}, "int_params")
     # ---- mutual consistency of the implementation itself (constructed instance)
     if "cdf" in base and "pdf" in base:
         F, f = base["cdf"], base["pdf"]
@@ -280,6 +305,11 @@ def main(ctx):
                 pass
             cases.append({"family": fam, "theta": th})
             ctx.axis("family", zoo.SHORT[fam])
+        # one integer-valued parameter vector per family, passed as python ints / numpy integers / integer arrays
+        cls_, names_, roles_ = zoo.FAMILIES[fam]
+        ival = {"scale": 2.0, "shape": 2.0, "loc": 1.0, "mu": 1.0, "sigma": 2.0, "delta": 3.0, "kappa": 2.0, "lambda": 2.0,
+                "mean": 3.0, "std": 2.0, "vmu": 1.0}
+        cases.append({"family": fam, "theta": {n: ival[r] for n, r in zip(names_, roles_)}, "int_params": True})
     res = ctx.pmap(cases, label="dist")
     worst = {}
     for c, r in zip(cases, res):
